@@ -9,6 +9,9 @@
 static _Bool IdSet__contains(struct IdSet *s, unsigned int *id) { if (*id == g_wid) return g_w_in; return nondet_bool(); }
 static void IdSet__emplace(struct IdSet *s, unsigned int *id, struct IdIns *r) { if (*id == g_wid) { __CPROVER_assert(!g_w_in, "C05 a new subscription gets an id that is not in use"); g_w_in = 1; } }
 static void IdSet__erase(struct IdSet *s, unsigned int *id) { if (*id == g_wid) g_w_in = 0; }
+/* the set holds exactly the ids of the listed entries (the abstraction keeps both in the same sequence model) */
+static size_t IdSet__size(struct IdSet *s) { return ((struct Subj *)((char *)s - __builtin_offsetof(struct Subj, m_activeSubscriptions)))->m_observers.len; }
+static _Bool IdSet__empty(struct IdSet *s) { return IdSet__size(s) == 0; }
 /* ---- std::unique_ptr<Observer> : destroying it destroys the observer (virtual destructor) ---- */
 static void OPtr__dtor(struct OPtr *p) {
   if (p->p != 0 && p->p == g_wobs) { __CPROVER_assert(g_w_alive, "C05/C10 an observer object is destroyed at most once"); g_w_alive = 0; g_w_deletes++; }
@@ -60,11 +63,17 @@ static struct CDet *CList__emplace_front(struct CList *l, struct Obsv **o, unsig
   l->items[l->len].observer = *o; l->items[l->len].subscriptionId = *id; l->len++;
   return &l->items[l->len - 1];
 }
-static struct CDet *CIt__op_star(struct CIt *i) { __CPROVER_assert(i->pos < i->l->len, "forward_list iterator dereferenced inside the list"); return &i->l->items[i->l->len - 1 - i->pos]; }
+static struct CDet *CIt__op_star(struct CIt *i) {
+  __CPROVER_assert(i->pos < i->l->len, "forward_list iterator dereferenced inside the list");
+  g_cur_pos = i->pos;
+  if (g_in_snapshot && i->pos == g_turn_pos) g_turn_seen++;      /* the round reaches the watched subscription's snapshot entry */
+  else __CPROVER_assume(SNAP_OTHER(i->l->items, i->l->len - 1 - i->pos));   /* instance of loop 0's invariant, see SNAP_OTHER */
+  return &i->l->items[i->l->len - 1 - i->pos];
+}
 /* ---- callbacks and virtual dispatch ---- */
-static void callback_effects(void);
+void callback_effects(void);
 static void Fn__op_call(struct Fn *f, int args) {
-  if (g_wobs != 0 && f == &g_wobs->m_func) { g_cb_calls++; g_cb_arg = args; g_cb_in_at_call = g_w_in; }
+  if (g_wobs != 0 && f == &g_wobs->m_func) { g_cb_calls++; g_cb_arg = args; g_cb_in_at_call = g_w_in; g_cb_pos = g_cur_pos; }
   if (g_reentrant) callback_effects();
 }
 void Obsv__op_call__virtual(struct Obsv *o, int args) {
